@@ -417,6 +417,15 @@ restart is then only required to be *fail-stop* (refuse to come up, or come up c
 def crashLag (us : List Unit) (k s : Nat) (D : Store) : Store :=
   applyUnits (us.take s ++ ((us.take k).drop s).filter (fun u => decide (u.db = .C))) D
 
+/-- `crashLag` where the state DB additionally got the first `j` entries of its unit at position `s` (a torn state
+bulk: trie nodes and account records without the completion marker, which `StateDB.Commit` stages last). -/
+def crashLagTorn (us : List Unit) (k s j : Nat) (D : Store) : Store :=
+  match us[s]? with
+  | some u =>
+    applyUnits (((us.take k).drop (s + 1)).filter (fun u => decide (u.db = .C)))
+      (applyOps (u.ops.take j) (applyUnits (us.take s) D))
+  | none => crashLag us k s D
+
 /-! ### Blocks whose execution fails
 
 `bad i` = the execution of block `i` fails (`executeBlock` → `validatePost`: the state root / receipts root of the
